@@ -101,6 +101,27 @@ def outer_query(rng, inner):
                 n2, t2 = rng.choice(num)
                 q.targets.append(ir.Target(ir.agg('sum', [ir.col(n2, t2)], t2), 's'))
             kind = 'aggregate'
+            r2 = rng.random()
+            if r2 < 0.25:
+                # aggregates only: one group, no key at all
+                q.targets = q.targets[1:]
+                kind = 'aggregate-pure'
+            elif r2 < 0.6:
+                q.group_by = [rng.choice([ir.Key('index', 1), ir.Key('name', 'g'), ir.Key('expr', ir.col(n, t))])]
+                kind = 'aggregate-explicit'
+            else:
+                kind = 'aggregate-implicit'
+            if rng.random() < 0.3:
+                rng.shuffle(q.targets)
+                if q.group_by and q.group_by[0].kind == 'index':
+                    q.group_by = [ir.Key('index', 1 + next(i for i, x in enumerate(q.targets) if x.alias == 'g'))]
+    # the outer statement's own DISTINCT / LIMIT (with and without an ordering, filter or grouping)
+    if rng.random() < 0.3:
+        q.limit = rng.choice([0, 1, 1, 2, 3, 100])
+    if rng.random() < 0.12:
+        q.distinct = True
+    if rng.random() < 0.5 and kind.startswith('aggregate'):
+        return q, kind
     r = rng.random()
     if r < 0.35:
         ok = [(i, t) for i, t in enumerate(q.targets) if t.expr.type in gen.ORDERABLE]
